@@ -9,12 +9,16 @@ import (
 )
 
 // EdgeKinds are the reference kinds between messages in F-shape.
-var EdgeKinds = []string{"none", "singular", "repeated", "map", "oneof"}
+var EdgeKinds = []string{"none", "singular", "repeated", "map", "oneof", "flatten", "pflatten"}
 
 // ShapeGraphs enumerates every reference graph over n messages (self references included) with at most
 // maxEdges edges (maxEdges<0: all), each edge being one of the 4 non-"none" kinds. Every spec has one
 // service whose single RPC takes and returns message M0.
-func ShapeGraphs(n, maxEdges int) []*spec.Spec {
+func ShapeGraphs(n, maxEdges int) []*spec.Spec { return ShapeGraphsK(n, maxEdges, 5) }
+
+// ShapeGraphsK is ShapeGraphs over the first nKinds edge kinds (5: references only; 7: also flattened references
+// without and with prefix).
+func ShapeGraphsK(n, maxEdges, nKinds int) []*spec.Spec {
 	pairs := n * n
 	var out []*spec.Spec
 	choice := make([]int, pairs)
@@ -27,7 +31,7 @@ func ShapeGraphs(n, maxEdges int) []*spec.Spec {
 		choice[i] = 0
 		rec(i+1, used)
 		if maxEdges < 0 || used < maxEdges {
-			for k := 1; k < len(EdgeKinds); k++ {
+			for k := 1; k < nKinds; k++ {
 				choice[i] = k
 				rec(i+1, used+1)
 			}
@@ -42,7 +46,7 @@ func shapeSpec(n int, choice []int) *spec.Spec {
 	var key []string
 	msgs := make([]*spec.Message, n)
 	for i := 0; i < n; i++ {
-		msgs[i] = spec.M(fmt.Sprintf("M%d", i), spec.F("label", "string"))
+		msgs[i] = spec.M(fmt.Sprintf("M%d", i), spec.F(fmt.Sprintf("label%d", i), "string"))
 	}
 	for i := 0; i < n; i++ {
 		for j := 0; j < n; j++ {
@@ -60,6 +64,10 @@ func shapeSpec(n int, choice []int) *spec.Spec {
 				msgs[i].Fields = append(msgs[i].Fields, spec.Msg(fname, tgt).Rep())
 			case "map":
 				msgs[i].Fields = append(msgs[i].Fields, spec.Msg(fname, tgt).Map())
+			case "flatten":
+				msgs[i].Fields = append(msgs[i].Fields, spec.Msg(fname, tgt).Flat())
+			case "pflatten":
+				msgs[i].Fields = append(msgs[i].Fields, spec.Msg(fname, tgt).FlatP(fname+"_"))
 			case "oneof":
 				on := fmt.Sprintf("choice%d", j)
 				msgs[i].Oneofs = append(msgs[i].Oneofs, &spec.Oneof{Name: on})
